@@ -50,7 +50,7 @@ def pick_string(rng, hostile=True, allow_controls=False, allow_cr=True):
     return s, name
 
 
-def js_literal(rng, s, style=None):
+def js_literal(rng, s, style=None, surrogate_escapes=False):
     """Print `s` as an ECMAScript string literal (random choice of quotes and escapes)."""
     q = rng.choice(('"', '"', "'")) if style is None else style
     out = [q]
@@ -80,9 +80,10 @@ def js_literal(rng, s, style=None):
             r = rng.random()
             if r < 0.4:
                 out.append(ch)
-            elif r < 0.7:
+            elif r < 0.7 or not surrogate_escapes:
                 out.append("\\u{%X}" % c)
             else:
+                # \\uD83D\\uDE00: valid ECMAScript, but qmluic rejects it (each half is not a character)
                 v = c - 0x10000
                 out.append("\\u%04X\\u%04X" % (0xD800 + (v >> 10), 0xDC00 + (v & 0x3FF)))
         elif c > 0x7e:
